@@ -43,6 +43,34 @@ check("C16",
       "TLA+ functional model checked by TLC + TLC-generated cases replayed into ServiceInfo::new + trace validation",
       "DESIGN.md section 7 C16")
 
+RESP_NOTE = ("Trusts TLC, the simulation layer as a faithful stand-in for the kernel/socket behaviour the property observes, the harness's "
+             "independent packet reader and its mechanical projections (lower-casing, canonical rdata strings). Explored histories are "
+             "sampled (seeded), not exhaustive; the declarative reading of the operators is model-checked on a small instance (MCResponder).")
+RESP_TECH = "trace validation of the real daemon (simulated network, virtual time) by a TLC monitor over an explicit TLA+ responder spec; operators model-checked"
+
+check("C06",
+      "The real daemon runs in the simulation layer; every loop iteration's packets are judged by the TLC monitor TraceRespond against "
+      "Responder.tla: for each injected query the answer set must equal what the registered, announced services on that link owe "
+      "(values of the latest register, TTL 120/4500, cache-flush bits, in-subnet addresses, additionals of PTR answers), nothing for "
+      "unknown / unregistered / probing / off-link services, legacy queries answered by one unicast datagram with id and question "
+      "echoed and flush bits cleared. The answer operators are model-checked (MCResponder: OnlyAnnounced, NoLeak, MustSubMay).",
+      RESP_NOTE, RESP_TECH, "DESIGN.md section 7 C06")
+check("C07",
+      "Same monitor: no announcement of a probing service before three probes 250 ms apart were seen on that interface plus 250 ms, "
+      "probe content (ANY questions, proposed records in the authority section), announcement content, second announcement one second "
+      "later, bounded time to the first announcement on a silent link; all start jitters arise from seeded runs.",
+      RESP_NOTE + " The mechanism model of probing (ProbeMech) is checked under C08.", RESP_TECH, "DESIGN.md section 7 C07")
+check("C09",
+      "Same monitor: unregister replies OK iff the lower-cased name is registered; on OK / shutdown one multicast goodbye per interface "
+      "and family where the service was announced, with PTR (+subtype), SRV, TXT, in-subnet addresses at TTL 0, repeated once 120 ms "
+      "later on the same interface; no goodbye that is not owed; no announcement or answer afterwards.",
+      RESP_NOTE, RESP_TECH, "DESIGN.md section 7 C09")
+check("C10",
+      "Same monitor, responder side: an answer (and the additionals it alone brings) must be omitted when the query lists the same "
+      "record with TTL above half, must be kept below half or when the record differs, either at exactly half; HalfRule is "
+      "model-checked on MCResponder. Querier side (known answers in the daemon's own queries) is judged by the browse monitor.",
+      RESP_NOTE, RESP_TECH, "DESIGN.md section 7 C10")
+
 def hooks_commits():
     try:
         out = subprocess.run(["git", "-C", "/repo", "log", "--format=%h %s"], stdout=subprocess.PIPE, text=True).stdout
